@@ -15,11 +15,27 @@ PROPS['C11'] = dict(
                        bound='texts of at most 4 pieces from {a, b, space, tab, U+00A0, U+3000, U+200B, U+000B, CRLF, U+00E4, e+U+0301}; grapheme mode: unmixed clusters'),
 )
 
+PROPS['C02'] = dict(
+    title='BPE tokenization is lossless for every well-formed merge table',
+    groups=[dict(template='c04_bpe.rs')],
+    input_search=True,
+    claim="BY CONTRACT: BPETokenizer::tokenize = prefix ids + per part (merge_bytes of a regular part | the single id of a special token) + suffix ids, never an error without special-token parsing, every emitted id a vocabulary id; BPETokenizer::de_tokenize spells exactly the table entries of the ids (special spellings only when kept; unknown special id = error, never a panic); BPETokenizer::new establishes the table invariant (position = 256 + merge id, special ids after the table); lemmas: dec distributes over concatenation, special ids spell nothing when ignored, hence (theorem_lossless) decoding tokenize(s) with special tokens ignored on both sides gives the text without its trailing whitespace -- exactly s when s has none -- and the decoded text is a prefix of s that differs only by trailing whitespace (lemma_trim_end_prefix). ASSUMED and covered by the BOUNDED stand-in only: the contract of BPETokenizer::merge_bytes (every id a regular id; the ids spell the text without its trailing whitespace), because that function is out of the verifier's reach.",
+    not_covered=['BPETokenizer::merge_bytes itself: BinaryHeap of 6-tuples, regex match iterator, nested enumerate/zip/filter_map/find/map closures (DESIGN 7); its contract is assumed in the proof and checked by the bounded stand-in',
+                 'that prefix/suffix ids are special ids (fix_wf): established by new_base_tokenizer, assumed (bounded stand-in of C04)',
+                 'split_input / add_prefix_and_suffix are assumed in this template; they are verified units of C01 (same functions)',
+                 'property C03 (canonical merge ORDER) is not claimed: it is an invariant of the heap loop inside merge_bytes, and the pinned tree violates it (DESIGN 8)'],
+    assumptions=['regex word pattern: the matches cover the text except trailing whitespace (part of the assumed merge_bytes contract)', 'String::from_utf8 / UTF-8 encoding is injective', 'HashMap / Borrow<str> lookups (vstd)'],
+    domain=['table + special tokens fit u32', 'wf(): no special spelling is also a regular token (configuration precondition)'],
+    bounded_probe=dict(label='merge_bytes(via tokenize/de_tokenize)', file='src/tokenization.rs', line=1368,
+                       what='the assumed contract of merge_bytes through the public API: every emitted id is a vocabulary id, and decoding the ids (special tokens ignored on both sides) returns the text without its trailing whitespace, as well-formed UTF-8',
+                       bound='7 merge tables (multi-level, overlapping, whitespace-prefixed, multi-byte merges) x {no limit, truncating max_vocab_size} x every text of at most 5 pieces from {a, b, c, space, U+00E4, newline} (130 634 cases)'),
+)
+
 PROPS['C04'] = dict(
     title='Tokenizer vocabulary maps are mutually consistent bijections',
     groups=[dict(template='c04_bpe.rs'), dict(template='c04_byte.rs'), dict(template='c04_vocab.rs')],
     input_search=True,
-    claim='For the BPE, byte and vocabulary (character) tokenizers, under the representation invariant established by their constructors: id_to_token(id) == vocab_at(id) for EVERY u32 (None exactly at and above vocab_size), vocab_size == number of ids with a token (ids contiguous), token_to_id is sound and complete w.r.t. vocab_at (every id whose token is the given UTF-8 string is returned), unk id lies in the special range.',
+    claim='BPETokenizer::de_tokenize: the decoded string spells exactly the table entries of the ids (special spellings only when kept), an unknown special id is an error and never a panic, total on valid input; hence decoding a single regular id yields exactly the bytes of that token (lemma_dec_single). For the BPE, byte and vocabulary (character) tokenizers, under the representation invariant established by their constructors: id_to_token(id) == vocab_at(id) for EVERY u32 (None exactly at and above vocab_size), vocab_size == number of ids with a token (ids contiguous), token_to_id is sound and complete w.r.t. vocab_at (every id whose token is the given UTF-8 string is returned), unk id lies in the special range.',
     not_covered=['get_vocab (BTreeMap built from iterator chains): vocab_at stands for it', 'the constructors (Vocab::build, BPETokenizer::new, new_base_tokenizer) that establish the invariant: itertools/regex/file loading', 'pad/prefix/suffix ids inside the special range follow from the assumed invariant, not from verified constructor code'],
     assumptions=['std HashMap model (obeys_key_model for String, Vec<u8>, Token) and Borrow-lookups (String/str, Vec<u8>/[u8])', 'ToBytes/FromBytes impls are mutually inverse (tok_bytes injective)', 'UTF-8 encoding injective; a String is determined by its characters'],
     domain=[],
